@@ -393,7 +393,11 @@ def run_check(pid, tier, seed, replay):
     seen_paths = set()
     for t, sp, r in results:
         if r["tool_error"]:
-            tool_err.append((t["path"], sp, r["tail"][-600:]))
+            if sp == "TraceCount":
+                # the strict spec never decides a property: an evaluation error there is reported as drift
+                drift.append(dict(trace=t["path"], what="strict_spec_evaluation_error", line=0, op="?"))
+            else:
+                tool_err.append((t["path"], sp, r["tail"][-600:]))
             continue
         if sp in ("TraceRef", "TraceDiff"):
             nvalid += 1
